@@ -7,6 +7,9 @@ import Vata.Proofs.IsectModel
 import Vata.Proofs.MtbddOps
 import Vata.Proofs.BddAbs
 import Vata.Proofs.BddAbsLang
+import Vata.Properties.C08_Tables
+import Vata.Properties.C08_Isect
+import Vata.Properties.RefTotal
 /-!
 # C08 – BDD-encoded automata: load, union, intersection, trimming keep exact languages
 
@@ -37,8 +40,13 @@ import Vata.Proofs.BddAbsLang
   were put in, so load-then-dump keeps the rules and the language, the union tables hold exactly the rules of both
   operands and the dump accepts exactly the union, one intersection step installs exactly the product rules of the two
   tuples (`C08_bu_*`); (c) the abstract constructions (plain union on disjoint states, product on a closed set of pairs,
-  trimming) are exact; (d) the MTBDD `apply` is pointwise.  The top-down encoding, the work-list of the symbolic
-  intersection, the symbolic trimming and `GetTopDownAut` are not modelled (see the end of the file).
+  trimming) are exact; (d) the MTBDD `apply` is pointwise.
+* **The rest of the property** is in two topic files, summarised by `C08_loaded_both_encodings` at the end of this file:
+  `Vata/Properties/C08_Tables.lean` – the top-down tables (`BddAbsTD.TableTD`: state ↦ MTBDD over 16 symbol and 6 arity
+  variables with sets of children tuples in the leaves), load / dump of both encodings, the top-down unions, `GetTopDownAut`,
+  the symbolic trimming of both encodings; `Vata/Properties/C08_Isect.lean` – the two symbolic `Intersection`s with their
+  work-lists, translators and product-state counters (`Vata/BddIsect.lean`).  The 16-character `0/1/X` symbols of the Timbuk
+  layer and the dictionary helpers are modelled in `Vata/Glue.lean` (`Vata/Properties/Util_Glue.lean`).
 -/
 namespace Vata.Props
 open Vata
@@ -62,8 +70,9 @@ theorem C08_no_useless_state_check_sound (A : TA) (h : allUsefulB A = true) :
 example : allUsefulB (removeUseless TrimEx.exA) = true ∧ allUsefulB TrimEx.exA = false := by decide
 
 /-- the abstract constructions the symbolic operations implement are exact: union of automata with disjoint states,
-product on a closed injectively numbered set of pairs containing `F_A × F_B`, removal of useless states.  Partial:
-that the BDD operations compute these constructions is not modelled -/
+product on a closed injectively numbered set of pairs containing `F_A × F_B`, removal of useless states.  Partial: only
+the abstract constructions; that the BDD operations compute them is `C08_bu_union_lang`, `C08_td_union`, `C08_td_isect`,
+`C08_bu_isect`, `C08_td_trim`, `C08_bu_trim` (summarised in `C08_loaded_both_encodings`) -/
 theorem C08_abstract_constructions_partial (A B : TA) :
     ((∀ q, q ∈ A.states → q ∉ B.states) → ∀ t, accepts (unionDisjoint A B) t = (accepts A t || accepts B t)) ∧
     (∀ (D : List (Nat × Nat)) (m : Nat × Nat → Nat), Closed A B D → InjOn m D →
@@ -78,8 +87,9 @@ example : (∀ q, q ∈ (reindex (· + 10) RenameEx.exA).states → q ∉ Rename
 
 /-- the MTBDD `apply` that combines two transition functions (set union for `Union`, pairwise product for
 `Intersection`) acts pointwise: for every assignment of the symbol variables the leaf of the result is the leaf
-operation applied to the leaves of the operands, and the result is again reduced and ordered.  Partial: the leaf
-operations and the tables around them are not modelled -/
+operation applied to the leaves of the operands, and the result is again reduced and ordered.  Partial: the pure apply
+only; the leaf operations and the tables around them are `C08_bu_union`, `C08_bu_isect_step` below, and the apply whose leaf
+operation has a side effect on the translator (`Intersection`) is `C08_isect_apply_side_effect` -/
 theorem C08_apply_pointwise_partial {α β γ : Type} [DecidableEq γ] (f : α → β → γ) (a : M.Node α) (b : M.Node β) :
     (∀ ρ, M.eval (M.apply2 f a b) ρ = f (M.eval a ρ) (M.eval b ρ)) ∧ (M.WF a → M.WF b → M.WF (M.apply2 f a b)) :=
   ⟨fun ρ => M.apply2_eval f ρ a b, M.apply2_wf f a b⟩
@@ -184,28 +194,128 @@ example : (BddAbs.absRules [0, 1, 2]
       (BddAbs.ofRules BddAbs.BddAbsEx.rsA) (BddAbs.ofRules BddAbs.BddAbsEx.rsB) [1, 1] [3, 3] [13, 13])).map
         (fun r => (r.sym, r.kids, r.parent)) = [(0, [], 13), (1, [], 14), (2, [13, 13], 29)] := by decide +kernel
 
+/-! ### the property for loaded automata, both encodings, in one statement
+
+Corollary of the topic files `Vata/Properties/C08_Tables.lean` (top-down tables, `GetTopDownAut`, symbolic trimming) and
+`Vata/Properties/C08_Isect.lean` (the two symbolic intersections with their work-lists). -/
+
+section
+open Vata.M Vata.BddAbs Vata.BddAbsTD Vata.BddIsect
+
+/-- **C08 for automata loaded into either encoding.**  `A`, `B` explicit automata whose symbols are 16-bit numbers of the
+dictionary `syms` and whose arities are below 64 (`MAX_SYMBOL_ARITY`); "loaded" = the table built by `AddTransition` for
+each rule (`ofRulesTD` top-down, `ofRules` bottom-up), "dumped" = the abstraction `absTD` / `absBU` over `syms`.  Then, in
+BOTH encodings: (1) load-and-dump keeps the language; (2) for operands with disjoint states the table-wise union accepts
+exactly `L(A) ∪ L(B)`; (3) the symbolic `Intersection` returns a result and it accepts exactly `L(A) ∩ L(B)`;
+(4) `RemoveUnreachableStates` and `RemoveUselessStates` keep the language and (5) after the latter every remaining state and
+rule takes part in an accepting run; (6) `GetTopDownAut` of the bottom-up table keeps the language. -/
+theorem C08_loaded_both_encodings (A B : TA) (syms : List Nat)
+    (hA : ∀ r, r ∈ A.rules → r.sym < 2 ^ 16 ∧ r.kids.length < 64 ∧ r.sym ∈ syms)
+    (hB : ∀ r, r ∈ B.rules → r.sym < 2 ^ 16 ∧ r.kids.length < 64 ∧ r.sym ∈ syms) (hs : ∀ f, f ∈ syms → f < 2 ^ 16) :
+    (∀ t, accepts (absTD syms (ofRulesTD A.rules) A.final) t = accepts A t ∧
+      accepts (absBU syms (ofRules A.rules) A.final) t = accepts A t) ∧
+    ((∀ q, q ∈ A.states → q ∉ B.states) → ∀ t,
+      accepts (absTD syms (unionTD (ofRulesTD A.rules) (ofRulesTD B.rules)) (A.final ++ B.final)) t =
+        (accepts A t || accepts B t) ∧
+      accepts (absBU syms (unionT (ofRules A.rules) (ofRules B.rules)) (A.final ++ B.final)) t =
+        (accepts A t || accepts B t)) ∧
+    ((∃ R F m, bddIsectTDRef (ofRulesTD A.rules) A.final (ofRulesTD B.rules) B.final = some (R, F, m) ∧
+        ∀ t, accepts (absTD syms R F) t = (accepts A t && accepts B t)) ∧
+      (∃ R F m, bddIsectBURef (ofRules A.rules) A.final (ofRules B.rules) B.final = some (R, F, m) ∧
+        ∀ t, accepts (absBU syms R F) t = (accepts A t && accepts B t))) ∧
+    (∀ t, accepts (absTD syms (removeUnreachableTD (ofRulesTD A.rules) A.final) A.final) t = accepts A t ∧
+      accepts (absTD syms (removeUselessTD (ofRulesTD A.rules) A.final).1 (removeUselessTD (ofRulesTD A.rules) A.final).2) t =
+        accepts A t ∧
+      accepts (absBU syms (removeUnreachableBU (ofRules A.rules) A.final).1 (removeUnreachableBU (ofRules A.rules) A.final).2) t =
+        accepts A t ∧
+      accepts (absBU syms (removeUselessBU (ofRules A.rules) A.final).1 (removeUselessBU (ofRules A.rules) A.final).2) t =
+        accepts A t) ∧
+    ((∀ q, Occurs (absTD syms (removeUselessTD (ofRulesTD A.rules) A.final).1 (removeUselessTD (ofRulesTD A.rules) A.final).2) q →
+        UsefulState (absTD syms (removeUselessTD (ofRulesTD A.rules) A.final).1 (removeUselessTD (ofRulesTD A.rules) A.final).2) q) ∧
+      (∀ q, Occurs (absBU syms (removeUselessBU (ofRules A.rules) A.final).1 (removeUselessBU (ofRules A.rules) A.final).2) q →
+        UsefulState (absBU syms (removeUselessBU (ofRules A.rules) A.final).1 (removeUselessBU (ofRules A.rules) A.final).2) q)) ∧
+    (∀ t, accepts (absTD syms (getTopDownAut (ofRules A.rules) A.final) A.final) t = accepts A t) := by
+  have hA' : ∀ r, r ∈ A.rules → r.sym < 2 ^ 16 ∧ r.sym ∈ syms := fun r hr => ⟨(hA r hr).1, (hA r hr).2.2⟩
+  have hB' : ∀ r, r ∈ B.rules → r.sym < 2 ^ 16 ∧ r.sym ∈ syms := fun r hr => ⟨(hB r hr).1, (hB r hr).2.2⟩
+  have eTD := absTD_ofRulesTD_setEq A.rules syms A.final hA hs
+  have eTDB := absTD_ofRulesTD_setEq B.rules syms B.final hB hs
+  have eBU := absBU_ofRules_setEq A.rules syms A.final hA' hs
+  have lTD : ∀ t, accepts (absTD syms (ofRulesTD A.rules) A.final) t = accepts A t := fun t => eTD.lang t
+  have lTDB : ∀ t, accepts (absTD syms (ofRulesTD B.rules) B.final) t = accepts B t := fun t => eTDB.lang t
+  have lBU : ∀ t, accepts (absBU syms (ofRules A.rules) A.final) t = accepts A t := fun t => eBU.lang t
+  have wTD := (tableTD_ofRulesTD A.rules).1
+  have cTD : SymsCompleteTD syms (ofRulesTD A.rules) := symsCompleteTD_ofRulesTD (fun r hr => (hA r hr).2.2)
+  have wBU := tableWF_ofRules A.rules
+  have cBU : SymsCompleteBU syms (ofRules A.rules) := symsCompleteBU_ofRules (fun r hr => (hA r hr).2.2)
+  have tTD := C08_td_trim (syms := syms) A.final wTD cTD
+  have tBU := C08_bu_trim (syms := syms) A.final wBU cBU
+  refine ⟨fun t => ⟨lTD t, lBU t⟩, fun hdis t => ⟨?_, ?_⟩, C08_isect_loaded A B syms hA hB hs,
+    fun t => ⟨?_, ?_, ?_, ?_⟩, ⟨tTD.2.2.2.2.1.1, tBU.2.2.2.2.1⟩, fun t => ?_⟩
+  · rw [(C08_td_union syms (ofRulesTD A.rules) (ofRulesTD B.rules) A.final B.final ?_).1 t, lTD, lTDB]
+    intro q h1 h2
+    exact hdis q ((eTD.mem_states q).mp h1) ((eTDB.mem_states q).mp h2)
+  · exact (C08_bu_union_lang A B syms (fun r hr => (hA r hr).1) (fun r hr => (hB r hr).1) hs
+      (fun r hr => (hA r hr).2.2) (fun r hr => (hB r hr).2.2) hdis).1 t
+  · rw [tTD.2.2.1 t, lTD]
+  · rw [tTD.2.2.2.1 t, lTD]
+  · rw [tBU.2.2.1 t, lBU]
+  · rw [tBU.2.2.2.1 t, lBU]
+  · rw [(C08_getTopDownAut (tableOk_ofRules A.rules) wBU A.final syms).2.2.2 t, lBU]
+
+example : (∀ r, r ∈ BddIsectEx.exA.rules → r.sym < 2 ^ 16 ∧ r.kids.length < 64 ∧ r.sym ∈ BddIsectEx.syms) ∧
+    (∀ r, r ∈ BddIsectEx.exB.rules → r.sym < 2 ^ 16 ∧ r.kids.length < 64 ∧ r.sym ∈ BddIsectEx.syms) ∧
+    (∀ f, f ∈ BddIsectEx.syms → f < 2 ^ 16) := by decide
+
+end
+
 /-!
+## closed since the last refresh of this file
+
+* **"The top-down encoding … has no table model; load / dump, `Union`, `Intersection` and trimming on it are
+  correspondence-check-only claims.  So is `GetTopDownAut`"** – closed: `C08_load_dump`, `C08_td_addTransition`,
+  `C08_td_union` (table-wise union and `UnionDisjointStates`), `C08_getTopDownAut`, `C08_td_trim`
+  (`Vata/Properties/C08_Tables.lean`); `C08_td_isect`, `C08_isect_total`, `C08_isect_loaded` (`Vata/Properties/C08_Isect.lean`).
+* **"`C08_bu_isect_step` is ONE `SetMtbdd` of `Intersection`; the work-list … is not modelled for the BDD encoding …, hence no
+  theorem 'the symbolic intersection accepts exactly the intersection'"** – closed: `C08_bu_isect` (the result is the
+  bottom-up product of C02 on the discovered pairs, injectively numbered), `C08_isect_total` (the model always returns),
+  `C08_isect_loaded`; the counter of defect D10: `C20_bdd_isect_numbers_dense_partial`.
+* **"Symbolic trimming …: not modelled"** – closed at the level of the leaf visits: the abstraction of the result IS
+  `removeUnreachable` / `removeUseless` (C03) of the abstraction, languages are kept, no useless state or rule is left
+  (`C08_td_trim`, `C08_bu_trim`, `C08_load_convert_trim`).
+* **The 16-bit symbol encoding** of the Timbuk layer: `SymbolicVarAsgn(16, f)` as coded is `BddAbs.symAsgn f`
+  (`Util_Glue_asgn_ofNum_limits`), its string form, concretisation and order are `Util_Glue_asgn_string_roundtrip`,
+  `Util_Glue_asgn_concretize`, `Util_Glue_asgn_lt_strict_total_order`.  The sets of states in the leaves are
+  `OrdVector<StateType>`s, modelled as coded (`Util_OrdVector_history`); the instantiation with state TUPLES
+  (`StateTupleSet`, lexicographic order on vectors) is not (see `Vata/Properties/Util_OrdVector.lean`).
+* The relation `ComputeSimulation` computes on a bottom-up automaton: `Vata/Properties/C07_BddSim.lean`.
+* Totality of the reference checkers applied to the dumps: `C08_reference_total` (`Vata/Properties/RefTotal.lean`).
+* The clauses of the property for loaded automata in one theorem: `C08_loaded_both_encodings`.
+
 ## not yet proved
 
-* **The top-down encoding** (`BDDTDTreeAutCore`: one MTBDD per parent state whose leaves are sets of children tuples) has
-  no table model; load / dump, `Union`, `Intersection` and trimming on it are correspondence-check-only claims against
-  `C08_reference_checkers_exact`.  So is `GetTopDownAut` (bottom-up to top-down conversion).
-* **Bottom-up encoding, beyond the tables.**  `C08_bu_load_dump` starts from a rule list with symbol NUMBERS: the Timbuk
-  layer (`addArityToSymbol`, the symbol dictionary that hands out the 16-bit numbers, state names) is not modelled here
-  (text ↔ description is C13).  `C08_bu_union_lang` takes the disjointness of the state sets as a hypothesis; that the
-  `ReindexStates` inside `Union` establishes it is the explicit-encoding fact `C02`, not re-proved for BDD automata, and
-  for `unionDisj` the hypothesis `hd` on the tuple maps is not derived from the disjointness of the states.
-  `C08_bu_isect_step` is ONE `SetMtbdd` of `Intersection`; the work-list that discovers the pairs of tuples and numbers
-  the product states (`bdd_bu_tree_aut_isect.cc`, the counter of defect D10) is not modelled for the BDD encoding – the
-  explicit work-list is `Vata/IsectModel.lean` –, hence no theorem "the symbolic intersection accepts exactly the
-  intersection".
-* **Symbolic trimming** (`RemoveUnreachableStates`, `RemoveUselessStates` on BDD automata: the AND/OR-graph usefulness
-  analysis): not modelled; only the abstract constructions (`C08_abstract_constructions_partial`) and the checker
-  (`C08_no_useless_state_check_sound`) are proved.
-* "None of these calls changes the language of an operand" concerns transition tables shared between copies (defect
-  D13 of the unchanged tree); the sharing of BDD transition tables is not modelled (tables are values here; the
-  copy-on-write models of C11 are about the explicit encoding).
-* Symbols `≥ 2^16` are outside the theorems (the hypotheses `< 2 ^ 16` are needed: two numbers that agree on the low 16
-  bits denote the same assignment).
+* **Inside the symbolic trimming.**  The AND/OR-graph propagation of the top-down `RemoveUselessStates` and the graph
+  traversal of the bottom-up one are modelled by their fixpoints (`prodStates` / `tdReach` of `Vata/Ref.lean` on the leaf-visit
+  skeletons), not edge by edge; only the work-list of the top-down `RemoveUnreachableStates` is mirrored
+  (`tdUnreachWL`, last component of `C08_td_trim`).
+* **Unions with renumbering.**  `C08_bu_union_lang` / `C08_td_union` take the disjointness of the state sets as a hypothesis;
+  that the `ReindexStates` inside `Union` establishes it is the explicit-encoding fact C02 (`C02_union_model_exact`), not
+  re-proved for BDD automata (the top-down `Union` with renumbering into a common table is not modelled), and for the
+  "maps put together" unions the hypothesis on the tuple maps / state keys is not derived from the disjointness of the states.
+* **The Timbuk layer above the tables.**  `C08_load_dump` / `C08_bu_load_dump` start from a rule list with symbol NUMBERS; the
+  symbol dictionary that hands out the 16-bit numbers, `addArityToSymbol` as a function of the dictionary, the arity check
+  (arities below 64) and the invariant `ArityOK` for tables obtained in other ways than loading and `GetTopDownAut` are
+  hypotheses.  The state names of a dumped union / intersection go through `CreateUnionStringToStateMap` /
+  `CreateProductStringToStateMap`: the product names are NOT injective in general (`Util_Glue_productNames_collide`; then the
+  dumped intersection has a larger language than the computed automaton) – a finding about the dump, not about the tables.
+* **The result cache of `Apply2Functor` and the sharing of MTBDD nodes** are not modelled in the intersections (the model
+  calls the leaf operation once per path; `C08_isect_apply_side_effect` shows that additional calls change nothing).  The
+  iteration orders of the hash containers are list orders, so the NUMBERS of the product states agree with the C++ only up
+  to these orders (the set of values does not depend on them).
+* "None of these calls changes the language of an operand": CLOSED by `C08_sharing_history` / `C08_sharing_isolation`
+  (`Vata/Properties/C08_Sharing.lean`: handles on shared tables, the exact precondition `pre` of the in-place operations,
+  sufficient and clause-wise necessary); what stays open there: tables at the abstraction of rule lists, fresh-table
+  operations as reference constructions, `pre` evaluated by the driver on the dumps.
+* Symbols `≥ 2^16` and arities `≥ 64` are outside the theorems (the hypotheses are needed: two numbers that agree on the low
+  16 bits denote the same assignment).  State numbers are unbounded `Nat`.
 -/
 end Vata.Props
